@@ -1249,7 +1249,7 @@ def _merge_single_markers(
         from poetry.core.packages.utils.utils import get_python_constraint_from_marker
 
         if isinstance(result_constraint, VersionRange) and merge_class == MultiMarker:
-            if result_constraint.min:
+            if result_constraint.min and result_constraint.min.precision >= 2:
                 # Convert 'python_version >= "3.8" and python_version < "3.9"'
                 # to 'python_version == "3.8"'.
                 candidate = parse_marker(f'{marker1.name} == "{result_constraint.min}"')
